@@ -97,6 +97,10 @@ fn run_macro<V: VirtualFileSystem>(v: &V, mac: &str, a: &str, b: &str) {
 
 static SEQ: AtomicU64 = AtomicU64::new(0);
 
+/// macros whose every failure message shows the path they were given (established on the unchanged tree; the
+/// others show a value or the second path in some branches)
+const STRICT_PATH_IN_MESSAGE: &[&str] = &["exists", "no_exists", "is_dir", "no_dir", "is_file", "no_file", "is_symlink", "no_symlink", "readlink", "readlink_abs", "read_all", "mkdir_p", "mkdir_m", "mkfile", "remove", "remove_all", "write_all", "symlink"];
+
 #[derive(PartialEq, Debug)]
 enum Verdict {
     MustPass,
@@ -319,6 +323,11 @@ pub fn check_macro(case: &MacroCase) -> CaseResult {
         // the resolved path (or for two-argument macros one of the resolved paths / values) is shown
         let shown = [on(&a_abs), b_abs.as_ref().map(|x| on(x)).unwrap_or_default(), b.to_string()];
         let any = shown.iter().any(|s| !s.is_empty() && (msg.contains(&format!("{:?}", s)) || msg.contains(s.as_str())));
+        // "a message naming the macro and the path": the path that was checked / acted on
+        let names_checked_path = msg.contains(&on(&a_abs));
+        if STRICT_PATH_IN_MESSAGE.contains(&case.mac.as_str()) && !names_checked_path {
+            return Err(Failure::new(format!("message-does-not-name-checked-path|{}", cls), format!("message {:?} does not show {:?}", msg, on(&a_abs))));
+        }
         if !any {
             return Err(Failure::new(format!("message-does-not-name-path|{}", cls), format!("message {:?} shows none of {:?}", msg, shown)));
         }
